@@ -139,9 +139,9 @@ func runC13(p *Prog, r *Report) {
 		q.Req(R, "remPipe-shape", len(prm) == 1 && len(lst) == 1 && len(g) == 1 && len(prm[0].Guard) == 0 && len(lst[0].Guard) == 0 && len(g[0].Guard) == 0, rp.Pos(),
 			"RemovePipe, list removal and the Detached goroutine are unconditional", "remPipe no longer unconditionally calls proto.RemovePipe / pipes.Remove / spawns the Detached goroutine")
 	}
-	q.OnlyIn(R, "callers-of-pipeIDs.Free", p.CallersOf("core.(*pipeIDAllocator).Free"), []string{"internal/core.(*socket).remPipe$1", "internal/core.(*pipe).Close$1"}, []string{"internal/core.(*socket).remPipe$1"})
 	q.OnlyIn(R, "callers-of-pipeIDs.Get", p.CallersOf("core.(*pipeIDAllocator).Get"), []string{"internal/core.newPipe"}, []string{"internal/core.newPipe"})
 
+	pipeIDPairing(p, r, "C13.7/id-pairing")
 	// ---- C13.6 hooks with no lock held
 	R = "C13.6/hook-no-lock"
 	r.Describe(R, "PipeEventHook is invoked with no mutex held")
@@ -270,4 +270,48 @@ func argsOf(s Sel) string {
 		return "<none found>"
 	}
 	return strings.Join(out, " | ")
+}
+
+// pipeIDPairing: every pipe id handed out by newPipe is given back exactly once when the
+// pipe is closed: through remPipe (after the Detached callback) when the pipe was attached,
+// directly — together with its slot in the socket's pipe list — when it never was (refused
+// by the protocol, or closed from the Attaching hook).  Shared by C10 (nothing remains
+// after Close) and C13 (id lifecycle).
+func pipeIDPairing(p *Prog, r *Report, R string) {
+	q := NewQ(p, r)
+	r.Describe(R, "pipe id pairing: pipe.Close releases the id on both branches (attached: remPipe → Free after Detached; never attached: list removal + Free), exactly once (inside closeOnce), under the pipe lock that addPipe's `added = true` takes")
+	cl := q.Fn(R, "internal/core", "pipe", "Close")
+	if !cl.OK() {
+		return
+	}
+	once := cl.Closure(R, 0)
+	if !once.OK() {
+		return
+	}
+	const pl = "internal/core.pipe.lock"
+	rem := once.Ev("call", "core.(*socket).remPipe").Guarded("recv.added")
+	fr := once.Ev("call", "core.(*pipeIDAllocator).Free").Guarded("!recv.added")
+	ls := once.Ev("call", "core.(*pipeList).Remove").Guarded("!recv.added")
+	r.Check(len(rem) == 1 && len(rem[0].Guard) == 1 && rem.AllHeld(pl), R, "attached-goes-through-remPipe", rem.Pos(p), "an attached pipe is deregistered by remPipe (which frees the id after Detached)", "pipe.Close does not hand an attached pipe to remPipe under the pipe lock")
+	r.Check(len(fr) == 1 && len(fr[0].Guard) == 1 && fr[0].Args[1] == "recv.id" && fr.AllHeld(pl), R, "never-attached-frees-id", fr.Pos(p), "a pipe that was never attached gives its id back in Close", "a pipe that was never attached (refused by the protocol, closed while attaching) never releases its id: pipeIDs.used grows with every refused connection")
+	r.Check(len(ls) == 1 && ls.AllHeld(pl), R, "never-attached-leaves-list", ls.Pos(p), "and leaves the socket's pipe list", "a pipe closed before it was attached stays in the socket's pipe list for ever")
+	// exactly once: the whole body runs under closeOnce, and nothing else calls Free
+	od := cl.Ev("call", "sync.(*Once).Do")
+	r.Check(len(od) == 1 && len(od[0].Guard) == 0, R, "once", od.Pos(p), "the release runs inside closeOnce.Do", "pipe.Close no longer runs its body exactly once")
+	// addPipe sets added under the same lock, after testing closing
+	ap := q.Fn(R, "internal/core", "socket", "addPipe")
+	if ap.OK() {
+		st := ap.Ev("store", "*.added").Arg(0, "true")
+		r.Check(len(st) == 1 && st.AllHeld(pl) && hasAtomSuffix(st[0].Guard, ".closing") , R, "added-set-under-pipe-lock", st.Pos(p), "added = true under the pipe lock, on the !closing edge", "addPipe sets added outside the pipe lock / without testing closing: Close can take the wrong branch and the id is freed twice (panic) or never")
+	}
+	q.OnlyIn(R, "callers-of-pipeIDs.Free", p.CallersOf("core.(*pipeIDAllocator).Free"), []string{"internal/core.(*socket).remPipe$1", "internal/core.(*pipe).Close$1"}, []string{"internal/core.(*socket).remPipe$1", "internal/core.(*pipe).Close$1"})
+}
+
+func hasAtomSuffix(g []string, suf string) bool {
+	for _, a := range g {
+		if strings.HasSuffix(a, suf) {
+			return true
+		}
+	}
+	return false
 }
